@@ -233,6 +233,12 @@ func (zns *ZnPMServer) readNamedPipe(pipe *pipe) {
 		log.Fatal("[PARENT] Open named pipe file error:", err)
 		return
 	}
+	// hold a write end in the master as well: a FIFO reports EOF once its last writer is
+	// gone, i.e. when every worker has exited (e.g. all of them timed out) - the master
+	// would then stop here instead of replacing them
+	if keepAlive, err := OpenNamedPipeWriter(pipe); err == nil {
+		defer keepAlive.Close()
+	}
 
 	var buf = make([]byte, 5)
 	for {
